@@ -805,6 +805,10 @@ class Function(Ring):
         # STEP 2: call the function
         # print 'func=',func
         # print 'args=',args
+        if setitem is None and Fout is not None and is_set(Fout.setitem):
+            # re-evaluation of an in-place write: store the values that are overwritten now
+            sl = Fout.setitem[0]
+            setitem = (sl, operator.getitem(args[0], sl).copy())
         out  = func(*args, **Fkwargs)
 
         # STEP 3: create new Function instance for output
